@@ -17,12 +17,27 @@ PRELUDE = r'''
 // ------------------------------------------------------------------------------------------
 // Prelude: opaque types (X2) -- the functions of this unit only pass them around
 // ------------------------------------------------------------------------------------------
-pub trait RealNumberInternalTrait: Sized {}                       // X7: no arithmetic on R in this unit
+// X7: no arithmetic on R in this unit; the one operation used is the conversion of a parsed literal
+pub trait ToPrimitive: Sized {}
+impl ToPrimitive for f64 {}
+pub trait RealNumberInternalTrait: Sized {
+    /// num_traits::NumCast::from -- ASSUMED total for the literal's type (checked at R = f32 by Kani: f32_conversions)
+    fn from<T: ToPrimitive>(n: T) -> (r: Option<Self>) ensures r is Some;
+}
+#[verifier::external_trait_specification]
+pub trait ExFromStr: Sized {
+    type ExternalTraitSpecificationFor: core::str::FromStr;
+    type Err;
+    fn from_str(s: &str) -> core::result::Result<Self, Self::Err>;
+}
+#[verifier::external_type_specification]
+#[verifier::external_body]
+pub struct ExParseFloatError(core::num::ParseFloatError);
+/// str::parse: may fail -- nothing is assumed about its result
+pub assume_specification<F: core::str::FromStr>[ str::parse::<F> ](s: &str) -> (r: core::result::Result<F, F::Err>);
 
 #[verifier::external_body] pub struct Datum { _p: () }           // parser::Datum = Located<DatumBody>
 #[verifier::external_body] pub struct ParameterFormals { _p: () } // parser::ParameterFormals
-#[verifier::external_body] #[verifier::reject_recursive_types(R)]
-pub struct Number<R: RealNumberInternalTrait> { _p: core::marker::PhantomData<R> }
 #[verifier::external_body] #[verifier::accept_recursive_types(T)]
 pub struct ValueReference<T> { _p: core::marker::PhantomData<T> }
 #[verifier::external_body] pub struct Transformer { _p: () }
@@ -77,6 +92,18 @@ impl<'a, R: RealNumberInternalTrait> Interpreter<'a, R> {
         ensures r matches Ok(TailExpressionResult::TailCall(tc)) ==> pending(tc.op(), tc.operands(), tc.frame()),
     { unimplemented!() }
 }
+impl<R: RealNumberInternalTrait> Number<R> {
+    /// values.rs Number::from_ratio -- contract proved in unit values_num (restated: the part this unit needs)
+    #[verifier::external_body]
+    pub fn from_ratio(num: i64, den: i64) -> (r: Self)
+        requires den != 0, num > i64::MIN, den > i64::MIN,
+        ensures r matches Number::Rational(_, b) ==> b > 0,
+    { unimplemented!() }
+}
+/// error!(SyntaxError::ExpectSomething("real number".to_string(), number_literal.clone()))  (X6)
+#[verifier::external_body]
+pub fn literal_error<T>() -> (r: Result<T>) ensures r is Err { unimplemented!() }
+
 impl<R: RealNumberInternalTrait> ArgVec<R> {
     pub uninterp spec fn spec_len(&self) -> nat;
     #[verifier::external_body]
@@ -210,7 +237,10 @@ UNIT = {
     "rlimit": 30,
     "trusted": {
         "Datum": "opaque type (X2)", "ParameterFormals": "opaque type (X2); its shape is the uninterpreted formals_shape",
-        "Number": "opaque type (X2)", "ValueReference": "opaque type (X2), declared positive in T",
+        "parse": "std str::parse: nothing assumed (may fail)", "ExParseFloatError": "std error type (opaque)",
+        "from_ratio": "CONTRACT PROVED IN UNIT values_num (Number::from_ratio): exact results have a positive denominator",
+        "literal_error": "X6: error!(SyntaxError::ExpectSomething(..)) builds an Err",
+        "ValueReference": "opaque type (X2), declared positive in T",
         "Transformer": "opaque type (X2)", "BuiltinProcedureBody": "opaque type (X2)", "Environment": "opaque type (X2)",
         "ArgVec": "opaque type (X2): SmallVec<[Value<R>;4]>, only its length is modelled",
         "SchemeError": "opaque type (X2); the ArgumentMissMatch kind is the uninterpreted is_arity_error",
@@ -237,6 +267,7 @@ UNIT = {
         {"kind": "struct", "file": P, "name": "SchemeProcedure"},
         {"kind": "struct", "file": V, "name": "BuiltinProcedure", "attrs": "#[verifier::reject_recursive_types(R)]"},
         {"kind": "enum", "file": V, "name": "Procedure", "attrs": "#[verifier::reject_recursive_types(R)]"},
+        {"kind": "enum", "file": V, "name": "Number", "attrs": "#[verifier::reject_recursive_types(R)]"},
         {"kind": "enum", "file": V, "name": "Value", "attrs": "#[verifier::reject_recursive_types(R)]"},
         {"kind": "enum", "file": I, "name": "TailExpressionResult", "attrs": "#[verifier::reject_recursive_types(R)]"},
         {"kind": "enum", "file": I, "name": "TailCall", "attrs": "#[verifier::reject_recursive_types(R)]"},
@@ -261,6 +292,17 @@ UNIT = {
                  "contract": """        requires forall|e: Expression| tail_evaluable(*expression, e) ==> may_eval(e),
         ensures tail_post(*expression, env, r),
         decreases *expression,"""},
+             "eval_primitive": {"props": ["C07", "C09"],
+                 "sig_rewrites": [("S1", r"-> Result<Value<R>>$", "-> (r: Result<Value<R>>)")],
+                 "rewrites": [("X6", r"error!\(SyntaxError::ExpectSomething\(\s*\"real number\"\.to_string\(\),\s*number_literal\.clone\(\),?\s*\)\)",
+                               "literal_error()", 0, "S")],
+                 "contract": """        requires
+            // the lexer never produces a ratio literal with denominator 0 (proved: lexer_pos unit, Lexer::number)
+            *datum matches Primitive::Rational(_, b) ==> b != 0,
+        ensures
+            // C09 literals: an exact ratio literal stays exact only with a positive denominator; an integer literal is itself
+            r matches Ok(Value::Number(Number::Rational(_, b))) ==> b > 0,
+            *datum matches Primitive::Integer(a) ==> r matches Ok(Value::Number(Number::Integer(v))) && v == a,"""},
              "eval_owned_tail_expression": {"props": ["C02", "C07"],
                  "sig_rewrites": [("S1", r"-> Result<TailExpressionResult<'b, R>>$", "-> (r: Result<TailExpressionResult<'b, R>>)")],
                  "contract": """        requires forall|e: Expression| tail_evaluable(expression, e) ==> may_eval(e),
